@@ -668,3 +668,33 @@ DESCR["C14"]["level"] += " Third obligation (both MIR profiles): an iteration en
 # C06's client-level half takes the deadline queue by its contract ("check pops exactly the entries that are due"): the kernel
 # queries that decide that contract on the real queue belong to C06 as well (a queue that reports entries early = early retransmission)
 PROPS["C06"] = PROPS["C06"] + [h for h in PROPS["C11"] if h.name.split("::")[-1] in ("c11_check_n1", "c11_check_n2", "c11_next_n1")]
+
+# ---- final quick-tier cut (the check machine stops a quick command after 900 s; target: <= 300 s here). A query that costs more
+# than ~150 s stays in the quick tier of at most the properties that need it most; everything moved is still in the thorough tier.
+def _retier(pid, to_thorough=(), to_quick=()):
+    out = []
+    for h in PROPS[pid]:
+        n = h.name.split("::")[-1]
+        if n in to_thorough and h.tier == "quick":
+            h = copy.copy(h)
+            h.tier = "thorough"
+        if n in to_quick and h.tier != "quick":
+            h = copy.copy(h)
+            h.tier = "quick"
+        out.append(h)
+    PROPS[pid] = out
+
+
+import copy
+_retier("C05", to_thorough=("glue_timeout_k1_due_unreliable", "glue_timeout_k1_due_reliable"))
+_retier("C06", to_thorough=("glue_timeout_k1_due_reliable",))
+_retier("C11", to_thorough=("glue_timeout_k1_due_reliable",))
+_retier("C12", to_thorough=("glue_timeout_k1_due_reliable",))
+_retier("C07", to_thorough=("glue_timeout_k1_due_st",))
+_retier("C03", to_thorough=("c19_nonce_cookie_k2_c1", "c19_nonce_cookie_k3_c1", "c19_nonce_cookie_ascii_k4"))
+_retier("C19", to_thorough=("c19_nonce_cookie_k2_c1", "c19_nonce_cookie_ascii_k4", "c19_unknown_attributes_clone_mutate"))
+_retier("C14", to_thorough=("c14_msg_xor_mapped_v4",))
+_retier("C02", to_thorough=("c14_msg_xor_mapped_v4", "c14_msg_even_port", "c14_msg_data3"))
+for _h in PROPS["C19"]:
+    if _h.name.endswith("c19_unknown_attributes_clone_mutate"):
+        _h.timeout = 1200
